@@ -31,6 +31,12 @@ def family(rp):
     f.add("call-constructor-missing-argument", "class A(def x: Int)\n    def g(self) -> Int => self.x\ndef z := A()", "reject")
     f.add("call-constructor-conforming", "class A(def x: Int)\n    def g(self) -> Int => self.x\ndef z := A(1)", "accept")
     f.add("call-constructor-surplus-argument", "class A(def x: Int)\n    def g(self) -> Int => self.x\ndef z := A(1, 2)", "reject")
+    f.add("call-surplus-argument-no-parameters", "def v() -> Int => 1\ndef r: Int := v(7)", "reject")
+    f.add("call-no-parameters-conforming", "def v() -> Int => 1\ndef r: Int := v()", "accept")
+    f.add("call-constructor-surplus-no-parameters", "class Counter\n    def n: Int := 0\ndef c := Counter(5)", "reject")
+    f.add("body-wrong-type-with-raises", "class NegErr(msg: Str): Exception(msg)\ndef checked(x: Int) -> Int raise [NegErr] =>\n    if x < 0 then raise NegErr(\"neg\")\n    \"not a number\"", "reject")
+    f.add("body-conforming-with-raises", "class NegErr(msg: Str): Exception(msg)\ndef checked(x: Int) -> Int raise [NegErr] =>\n    if x < 0 then raise NegErr(\"neg\")\n    x + 1", "accept")
+    f.add("body-method-wrong-type", "class A\n    def m(self, a: Int) -> Int => 1.5", "reject")
     f.add("call-surplus-argument", fn + "def r: Int := f(1, \"y\", 3)", "reject")
     f.add("call-wrong-argument-type", fn + "def r: Int := f(\"s\")", "reject")
     f.add("call-wrong-second-argument-type", fn + "def r: Int := f(1, 2)", "reject")
@@ -233,6 +239,67 @@ def ob_id_from_var(run, mir, rp, fam):
     e2.prove(run, ob, ex, [], conj(claims), {"expr.is_some": e_some, "mutable": mutable}, fam.as_replay("annotated-variable:", only=["initialiser-"]))
 
 
+def ob_fun_body(run, mir, rp, fam):
+    ob = run.ob("function-body-direction", "E2", "gen_def FunDef arm with a declared return type and a body: on every "
+                "successful path the body is constrained with parent = declared return type (at the body's position), child = "
+                "the body expression, and the body is generated with that return type recorded in its environment — whatever "
+                "the raises clause, arguments or class context are", ["gen_def (FunDef)", "Environment setters (inlined)"])
+    fn = e2.find1(mir, file=DEF_RS, name="gen_def")
+    ex = Exec(mir, max_paths=60000, inline=[ckern.ENV_SETTERS])
+    st = State()
+    _rel, lay = ckern.node_enum()
+    mk = lambda n: ckern.mk_ast(n, opq(n + ".node", "Node"))
+    (idn, _p0), (body, body_pos), (ret, ret_pos) = mk("id"), mk("body"), mk("ret")
+    idr, bodyr, retr = (Ref(ex.new_cell(st, x)) for x in (idn, body, ret))
+    vals = {"id": idr, "args": opq("args", "Vec<AST>"), "ret": Agg("Option", "Some", [retr]), "raises": opq("raises", "Vec<AST>"),
+            "body": Agg("Option", "Some", [bodyr]), "pure": z3.Bool("pure")}
+    if sorted(vals) != sorted(lay["FunDef"]):
+        raise Unsupported(f"Node::FunDef fields changed: {lay['FunDef']}")
+    node = ckern.mk_node("FunDef", {k: vals[k] for k in lay["FunDef"]})
+    ast, _ = ckern.mk_ast("ast", node)
+    env, ev = ckern.sym_env(ex, st)
+    ctx, constr = ckern.refs(ex, st, "ctx", "constr")
+    ends = e2.run_kernel(run, ex, fn, [Ref(ex.new_cell(st, ast)), env, ctx, constr], st)
+    fields = e2.rust_struct(ckern.ENV_RS, "Environment")
+    claims, n_ok = [], 0
+    for p in ends:
+        c = conj(p.cond)
+        s = p.state
+        if result_kind(p) != "Ok":
+            continue
+        n_ok += 1
+        adds = calls(p, "ConstrBuilder::add")
+        gens = [g for g in calls(p, "generate") if z3.eq(g["argvals"][0], ex.to_val(s, bodyr))]
+        tf = [t for t in calls(p, "Name.TryFrom::try_from") if z3.eq(t["argvals"][0], ex.to_val(s, retr))]
+        news = calls(p, "Expected::new")
+        if not tf or len(gens) != 1:
+            claims.append(z3.Not(c))
+            continue
+        name = ex.to_val(s, ex.project(s, ex.project(s, tf[0]["ret"], ("v", "Ok")), ("f", 0), "Name"))
+        child = ex.to_val(s, ex.app("Expected.From::from", [bodyr], "Expected", s))
+        parent_ok = z3.BoolVal(False)
+        for nw in news:
+            second = nw["args"][1]
+            second = ex.read_ref(s, second) if isinstance(second, Ref) else second
+            if isinstance(second, Agg) and second.variant == "Type":
+                isp = z3.And(ex.to_val(s, second.fields[0]) == name, nw["argvals"][0] == ex.to_val(s, body_pos))
+                parent_ok = z3.Or(parent_ok, z3.And(isp, disj([z3.And(a["argvals"][2] == ex.to_val(s, nw["ret"]), a["argvals"][3] == child) for a in adds])))
+        benv = gens[0]["args"][1]
+        benv = ex.read_ref(s, benv) if isinstance(benv, Ref) else benv
+        rt_ok = z3.BoolVal(False)
+        if isinstance(benv, Agg) and benv.names == fields:
+            rt = benv.fields[fields.index("return_type")]
+            if isinstance(rt, Agg) and rt.variant == "Some":
+                want = [nw for nw in news if z3.eq(nw["argvals"][0], ex.to_val(s, ret_pos))]
+                rt_ok = disj([ex.to_val(s, rt.fields[0]) == ex.to_val(s, nw["ret"]) for nw in want])
+                in_fun = benv.fields[fields.index("in_fun")]
+                rt_ok = z3.And(rt_ok, in_fun if z3.is_bool(in_fun) else z3.BoolVal(False))
+        claims.append(z3.Implies(c, z3.And(parent_ok, rt_ok)))
+    if not n_ok:
+        raise Unsupported("no Ok path")
+    e2.prove(run, ob, ex, [], conj(claims), {"pure": vals["pure"]}, fam.as_replay("function-body:", only=["body-", "return-"]))
+
+
 def ob_unify_type(run, mir, rp, fam):
     ob = run.ob("unify-type-decision", "E2", "unify_type on two concrete (non-temporary) types: the superset test is asked "
                 "with the constraint's parent type as receiver and the child type as argument; an error of the test is "
@@ -301,7 +368,7 @@ def run(run):
                "outside: that a violation is still caught in every nesting context (branch forking in ConstrBuilder); the accepted-exactly-when direction for whole programs")
     run.trusted += ["rustc nightly MIR dump", "mirsym MIR semantics", "z3"]
     run.bounds = {"paths": "all paths of each kernel with loops cut at their headers"}
-    for f in (ob_call_parameters, ob_return, ob_id_from_var, ob_unify_type):
+    for f in (ob_call_parameters, ob_return, ob_id_from_var, ob_fun_body, ob_unify_type):
         try:
             f(run, mir, rp, fam)
         except Unsupported as e:
